@@ -140,6 +140,33 @@ pub fn run(tier: &str) -> i32 {
             acc
         })
         .reduce(Acc::new, Acc::merge);
+    // longer arrays (around powers of two and beyond) with a reduced cube whose bounds are relative to the length
+    let long_lens: Vec<usize> = if run.thorough() { vec![31, 32, 33, 63, 64, 65, 100, 255, 256, 257, 1000] } else { vec![31, 32, 33, 64, 65, 100] };
+    let long_dcs: Vec<(usize, Value)> = long_lens.iter().map(|n| (*n, arr(*n))).collect();
+    let acc_long = long_dcs
+        .par_iter()
+        .map(|(n, doc)| {
+            let mut acc = Acc::new();
+            let dc = DocCtx::new(doc);
+            let n = *n as i64;
+            let bounds: Vec<Option<i64>> = vec![None, Some(0), Some(1), Some(-1), Some(n - 1), Some(n), Some(n + 1), Some(-n), Some(-n - 1), Some(-n + 1), Some(n / 2), Some(-n / 2)];
+            let steps: Vec<Option<i64>> = vec![None, Some(1), Some(-1), Some(2), Some(-2), Some(3), Some(-7), Some(n), Some(-n), Some(n - 1), Some(0)];
+            for a in &bounds {
+                for b in &bounds {
+                    for c in &steps {
+                        let sel = Sel::Slice(*a, *b, *c);
+                        let ctxs: Vec<(Vec<Seg>, &DocCtx, &str)> = vec![(vec![], &dc, "root (long array)")];
+                        one(&run, &mut acc, &sel, &ctxs, None);
+                    }
+                }
+                if let Some(i) = a {
+                    let ctxs: Vec<(Vec<Seg>, &DocCtx, &str)> = vec![(vec![], &dc, "root (long array)")];
+                    one(&run, &mut acc, &Sel::Index(*i), &ctxs, Some(Selector::Index(*i)));
+                }
+            }
+            acc
+        })
+        .reduce(Acc::new, Acc::merge);
     // indices
     let mut idx: Vec<i64> = (-(maxlen as i64) - 3..=maxlen as i64 + 3).collect();
     idx.extend([MAX_INT, MAX_INT - 1, MIN_INT, MIN_INT + 1]);
@@ -238,7 +265,7 @@ pub fn run(tier: &str) -> i32 {
             acc
         })
         .reduce(Acc::new, Acc::merge);
-    let acc = acc.merge(acc2).merge(acc3).merge(acc4);
+    let acc = acc.merge(acc2).merge(acc3).merge(acc4).merge(acc_long);
     run.finish(
         acc,
         "one case = one (slice or index selector, array length, context) evaluated through query_with_path (and, at the root, through a programmatically built JpQuery); expected index sequence = RFC 9535 2.3.4.2.2 pseudo-code transcribed with 128-bit arithmetic; compared on node identity, order and path; non-trivial = at least one element is selected",
@@ -247,6 +274,6 @@ pub fn run(tier: &str) -> i32 {
             "termination: any single case exceeding a 20 s horizon is reported as a violation",
         ],
         true,
-        json!({"parameter_range": r, "max_array_length": maxlen, "contexts": ["root", "below name", "below wildcard", "descendant", "non-array", "below wildcard / descendant over nodelists that mix arrays with non-arrays, alone and inside a union with a name selector (either order)", "index segment of a singular query in a comparison", "slice on the current node of a filter (count / following segment)"]}),
+        json!({"parameter_range": r, "max_array_length": maxlen, "long_arrays": "lengths 31..100 (thorough ..1000) x bounds {absent, 0, +-1, +-len, +-(len+-1), +-len/2} x 11 steps", "contexts": ["root", "below name", "below wildcard", "descendant", "non-array", "below wildcard / descendant over nodelists that mix arrays with non-arrays, alone and inside a union with a name selector (either order)", "index segment of a singular query in a comparison", "slice on the current node of a filter (count / following segment)"]}),
     )
 }
